@@ -9,7 +9,7 @@ import glob, json, os, re, subprocess, sys, tempfile, shutil
 from concurrent.futures import ThreadPoolExecutor
 
 VERIF = os.path.dirname(os.path.dirname(os.path.abspath(__file__)))
-EXTRA = {"c03_index_nonull": ["C03", "C05"], "c13_swap_pop_linear": ["C13", "C14"], "c13_sorted_keys": ["C13", "C14"], "c20_static_as_reint": ["C20", "C16"], "c15_count_idiom": ["C15"], "c14_erase_remove": ["C14", "C18", "C04"], "c13_key_helper": ["C13", "C14", "C18"], "c20_opaque_memcpy": ["C20", "C07"], "c13_manual_find": ["C13", "C14", "C18"], "c16_binop_inline": ["C16", "C05", "C01", "C17"], "c02_foreign_store": ["C02"], "c13_manual_nocheck": ["C13"], "c05_named_stride": ["C05", "C03", "C07", "C10", "C17"]}
+EXTRA = {"c03_index_nonull": ["C03", "C05"], "c13_swap_pop_linear": ["C13", "C14"], "c13_sorted_keys": ["C13", "C14"], "c02_cstyle_static_cast": ["C02"], "c15_count_idiom": ["C15"], "c14_erase_remove": ["C14", "C18", "C04"], "c13_key_helper": ["C13", "C14", "C18"], "c20_opaque_memcpy": ["C20", "C07"], "c13_manual_find": ["C13", "C14", "C18"], "c16_binop_inline": ["C16", "C05", "C01", "C17"], "c02_foreign_store": ["C02"], "c13_manual_nocheck": ["C13"], "c05_named_stride": ["C05", "C03", "C07", "C10", "C17"]}
 SEED_CHECKS = {"C03-a": ["C17"], "C07-a": ["C06"], "C14-a": ["C14", "C04"], "C18-a": ["C18", "C14"], "C08-a": ["C08", "C04"], "C04-a": ["C04", "C08"], "C07-b": ["C07"], "C08-b": ["C08"], "C11-b": ["C11"], "C13-b": ["C13"], "C08-c": ["C08"], "C12-c": ["C12"], "C07-c": ["C07", "C05"]}
 
 
